@@ -219,8 +219,42 @@ static int mode_fields(int argc, char** argv) {
   return 0;
 }
 
+// A date (and date-time) object changed through its setters must report what a freshly built object for the same
+// components reports (observers must not remember anything from before the change).
+static int mode_setters() {
+  unsigned long long n = 0, bad = 0;
+  for (int y = 1873; y <= 2127; y += 1) for (int m = 1; m <= 12; m += 1) for (int d = 1; d <= 28; d += 9) {
+    int ys[] = {1873, 1900, 1999, 2000, 2020, 2100, 2127, y ^ 1};
+    for (int y2 : ys) {
+      if (y2 < 1873 || y2 > 2127) continue;
+      for (int how = 0; how < 4; how++) {
+        LocalDate a = LocalDate::forComponents((int16_t) y, (uint8_t) m, (uint8_t) d);
+        LocalDateTime b = LocalDateTime::forComponents((int16_t) y, (uint8_t) m, (uint8_t) d, 12, 34, 56);
+        volatile int sink = a.dayOfWeek() + (int) a.toEpochDays() + b.localDate().dayOfWeek(); (void) sink;
+        int ny = y, nm = m, nd = d;
+        if (how == 0) { a.yearTiny((int8_t) (y2 - 2000)); b.yearTiny((int8_t) (y2 - 2000)); ny = y2; }
+        else if (how == 1) { a.year((int16_t) y2); b.year((int16_t) y2); ny = y2; }
+        else if (how == 2) { nm = (m % 12) + 1; a.month((uint8_t) nm); b.month((uint8_t) nm); }
+        else { nd = (d % 28) + 1; a.day((uint8_t) nd); b.day((uint8_t) nd); }
+        LocalDate f = LocalDate::forComponents((int16_t) ny, (uint8_t) nm, (uint8_t) nd);
+        LocalDateTime g = LocalDateTime::forComponents((int16_t) ny, (uint8_t) nm, (uint8_t) nd, 12, 34, 56);
+        n++;
+        if (a.dayOfWeek() != f.dayOfWeek() || a.toEpochDays() != f.toEpochDays() || a.isError() != f.isError() || !(a == f)
+            || b.localDate().dayOfWeek() != g.localDate().dayOfWeek() || b.toEpochSeconds() != g.toEpochSeconds() || b.isError() != g.isError()) {
+          if (bad < 10) printf("MISMATCH setter how=%d %d-%d-%d -> %d-%d-%d dow=%d/%d(fresh %d) days=%d/%d\n", how, y, m, d, ny, nm, nd,
+              (int) a.dayOfWeek(), (int) b.localDate().dayOfWeek(), (int) f.dayOfWeek(), (int) a.toEpochDays(), (int) f.toEpochDays());
+          bad++;
+        }
+      }
+    }
+  }
+  printf("SETTERS n=%llu bad=%llu\n", n, bad);
+  return 0;
+}
+
 int main(int argc, char** argv) {
   if (argc < 2) return 2;
+  if (!strcmp(argv[1], "setters")) return mode_setters();
   if (!strcmp(argv[1], "dates")) return mode_dates();
   if (!strcmp(argv[1], "times")) return mode_times();
   if (!strcmp(argv[1], "oracle")) return mode_oracle(argc - 2, argv + 2);
